@@ -186,6 +186,22 @@ EXTRA = {
 }
 
 
+# sentences appended for the rules of round 6 (rules/round6.py)
+EXTRA2 = {
+ 'C01': ' (CL-1) the aligner produced by Clone::clone carries clone(self.scoring); a clone rebuilt through a convenience constructor would lose the clip penalties.',
+ 'C02': ' (CL-1) the banded aligner produced by Clone::clone carries clone(self.scoring).',
+ 'C07': ' (TS-13) in Node::update_max every replacement of the running maximum happens on the edge where the accumulator itself compares smaller than the child max.',
+ 'C09': ' (DL-1) the simd distance functions delegate to functions of the external crates that compute the same metric (never a Damerau variant for Levenshtein).',
+ 'C12': ' (EF-10) read, read_iter and the read_into_* workers never write the fetch state, so a failed read can be repeated.',
+ 'C13': ' (MM-1) gff::Records::next stores attributes with the accumulating MultiMap::insert, never a first-wins entry API; no csv reader of bed.rs/gff.rs trims fields.',
+ 'C14': ' (AO-3) the forwarding constructors with_prob / with_float of the three HMM models pass parameter k on as argument k of Model::new.',
+ 'C15': ' TB-5 also fixes PHREDProb::from(Prob) to -10*log10 of the unmodified probability.',
+ 'C18': ' SB-5 also requires that the big-value side table of SmallInts is only looked up by position (get/insert), never traversed.',
+ 'C19': ' (SB-12) hash_kmers and the two find_kmer_matches_*_hashed scanners enumerate their windows with the same bound and guards.',
+ 'C20': ' (NC-3) every value-changing integer cast of the ORF finder is discharged by interval analysis (the frame offset is reduced modulo 3 before it is narrowed). (TB-14) Alphabet::{union, intersection, difference} use the bit-set operation of the same name on (self, other).',
+}
+
+
 def main():
     checks = []
     na = []
@@ -199,7 +215,7 @@ def main():
                 'evidence_file': '/verif/evidence/%s.json' % pid,
                 'replay_cmd_template': './bin/check %s --replay {path}' % pid,
                 'engine': 'biofacts+rules',
-                'level_claimed': {'category': c['level'], 'text': c['text'] + EXTRA.get(pid, ''), 'design_ref': c['ref']},
+                'level_claimed': {'category': c['level'], 'text': c['text'] + EXTRA.get(pid, '') + EXTRA2.get(pid, ''), 'design_ref': c['ref']},
                 'level_note': c['note'],
                 'technique': c['technique'],
             })
